@@ -152,8 +152,8 @@ Definition py_str_arg (v : val) : option str :=
   | VBool b => Some (if b then s_True else s_False)
   | VNil => Some s_None
   | VUndef => Some []
-  | VList _ | VDict _ => py_repr v
-  | _ => None
+  | _ => None      (* str() of a list or dict is its Python repr, and the model
+                      does not tell the (key, value) tuples of a dict from lists *)
   end.
 
 (** Decimal digits of a numeric string: [^-?[0-9]+$]. *)
@@ -420,6 +420,15 @@ Fixpoint lam_find (items rvs : list val) (i : Z) : option (val * Z) :=
   | _, _ => None
   end.
 
+Definition lam_scope (param : str) (iparam : option str) (it : val) (i : Z) : list (str * val) :=
+  match iparam with
+  | Some ip => [(param, it); (ip, VInt i)]
+  | None => [(param, it)]
+  end.
+
+Definition lam_stops (lf : lfname) : bool :=
+  match lf with LFind | LFindIndex | LHas => true | _ => false end.
+
 Definition lambda_result (lf : lfname) (items rvs : list val) : eres :=
   match lf with
   | LMap => EOk (VList (map (fun rv => match rv with VUndef => VNil | _ => rv end) rvs))
@@ -460,14 +469,23 @@ Fixpoint eval_segs (c : ctx) (l : list seg) : eres + list val :=
       end
   end.
 
-(** the items of LambdaExpression.map, evaluated eagerly up to the first failure *)
-Fixpoint lambda_map (c : ctx) (param : str) (body : expr) (items : list val) : eres + list val :=
+(** LambdaExpression.map is a generator: the scope it pushes binds the item
+    (and, for a two-parameter arrow function, its index; the item is stored last,
+    so it wins when both parameters have the same name).  where/reject/map
+    exhaust the generator; find/find_index/has ([stop]) abandon it at the first
+    item whose value is truthy and defined, so later items are never evaluated. *)
+Fixpoint lambda_map (stop : bool) (c : ctx) (param : str) (iparam : option str) (body : expr)
+         (items : list val) (i : Z) : eres + list val :=
   match items with
   | [] => inr []
   | it :: items' =>
-      match ev (set_scopes c ([(param, it)] :: scopes c)) body with
+      match ev (set_scopes c (lam_scope param iparam it i :: scopes c)) body with
       | EOk rv =>
-          match lambda_map c param body items' with inr rs => inr (rv :: rs) | inl r => inl r end
+          if stop && lam_true rv then inr [rv]
+          else match lambda_map stop c param iparam body items' (i + 1)%Z with
+               | inr rs => inr (rv :: rs)
+               | inl r => inl r
+               end
       | r => inl r
       end
   end.
@@ -546,8 +564,8 @@ Definition eval_step (c : ctx) (e : expr) : eres :=
           else match alt with Some b => ev c b | None => EOk VNil end
       | r => r
       end
-  | EFilterL a lf param body =>
-      (* a filter given a one-parameter arrow function: LambdaExpression.map
+  | EFilterL a lf param iparam body =>
+      (* a filter given an arrow function: LambdaExpression.map
          extends the context with a scope that binds the parameter to each item
          in turn; the scope is popped when the filter has finished with the
          generator (also when it stops early or the body raises) *)
@@ -561,7 +579,7 @@ Definition eval_step (c : ctx) (e : expr) : eres :=
                  for an item) *)
               if (dlimit c <? scope_size c)%Z then EErr ContextDepthError
               else
-                match lambda_map c param body items with
+                match lambda_map (lam_stops lf) c param iparam body items 0%Z with
                 | inr rvs => lambda_result lf items rvs
                 | inl r => r
                 end
